@@ -34,6 +34,9 @@ def run(tier, seed, replay_rows=None):
     if replay_rows is not None and replay_rows and "case" in replay_rows[0]:
         # replay of a measurement finding: just re-measure
         replay_rows = None
+    # unbounded: min * count <= sum <= max * count (so min <= mean <= max) for ANY sequence of durations, with the
+    # 0 sentinel (inductive invariant, Apalache); a mutant comparing the minimum with the maximum is refuted
+    vlib.inductive(ck, "AggregateInd", mutant="AggregateIndMut")
     rows = vlib.flow(ck, mcs=[("ProgressSeq", "MC_ProgressSeq.cfg", dict(workers=8, timeout=600))],
                      sub="c17", trace_module="Trace_ProgressSeq", trace_cfg="Trace_ProgressSeq.cfg",
                      trace_file="c17seq.ndjson", key_of=lambda t: "aggregation",
